@@ -289,6 +289,7 @@ Inv_PartialFaithful == Report("PartialFaithful", Started => PartialFaithfulS(S, 
 Inv_PlainOnly == Report("PlainOnly", (Started /\ plain) => \A n \in Ids(D) : D.nodes[n].how # "other" /\ ~D.nodes[n].skipped)
 Inv_DepthExact == Report("DepthExact", Started => DepthExact(D) /\ ev.post.depth = Max({D.nodes[n].depth : n \in Ids(D)}))
 Inv_CacheFresh == Report("CacheFresh", Started => CacheFresh(S, D))
+Inv_CacheDiscard == Report("CacheDiscard", Started => CacheDiscarded(pre, D))
 Inv_Covers == Report("Covers", Started => \A n \in Ids(D) : D.nodes[n].cand.k = 1 => Covers(S, D, n, D.nodes[n].cand.v))
 Inv_SetsFresh == Report("SetsFresh", Started => \A n \in Ids(D) :
     /\ (D.nodes[n].sets.k = 1 /\ D.nodes[n].seeds.k = 1) => SetsExactFor(S, D.nodes[n].seeds.v, D.nodes[n].sets.v)
